@@ -3,3 +3,4 @@ import Atlas.Revision
 import Atlas.Pending
 import Atlas.Exec
 import Atlas.Hash
+import Atlas.Lex
